@@ -283,6 +283,12 @@ def check(tier: str) -> Result:
             why += " -- a constant cube size is used instead of the environment's"
     site_s, fn_s = (tree.find_method(cenv[0], "step").loc(), "rubiks_cube.env.RubiksCube.step")
     res.add("C17.R1", site_s, fn_s, "step selects move flatten_action(action, cube_size of this environment)", ok, why)
+    # ---- R3: the cube stored by step is exactly the selected move applied to the incoming cube (no dependence on its content)
+    sfc = StepFlow(ea)
+    newc = uncopy(sfc.new["cube"])
+    pure = ext_name(newc) == "jax.lax.switch" and len(newc.args[1]) >= 3 and newc.args[1][2] is sfc.old["cube"]
+    res.add("C17.R3", site_s, fn_s, "State.cube after step is lax.switch(move index, all moves, incoming cube) and nothing else", pure,
+            txt(newc, 3, 160) if pure else f"{txt(newc, 3, 160)} -- the move applied depends on the cube's content (actions must be state-independent permutations)")
     # ---- R5 sliding tile
     sliding_obligations(res, tree)
     res.analysed = {"cube_sizes": list(sizes), "moves_evaluated": n_moves, "sticker_positions_max": 6 * max(sizes) ** 2}
@@ -366,3 +372,17 @@ def sliding_obligations(res: Result, tree):
         ok = src is moves_t and bool(inb)
         why = f"choice over MOVES: {src is moves_t}; p = in-bounds test of blank + MOVES: {bool(inb)}"
     res.add("C17.R5", g.loc(), "sliding_tile_puzzle.generator.RandomWalkGenerator._make_random_move", "scramble moves are drawn from MOVES with the in-bounds mask as probabilities", ok, why)
+    # the generated puzzle is exactly the result of the random walk from the solved board (nothing applied afterwards)
+    call = rw.methods.get("__call__")
+    if call is None:
+        raise AnalysisError("RandomWalkGenerator.__call__ not found")
+    v3 = VFG(tree, Model(tree))
+    kk = mk("param", call.qual, call.params[1])
+    st = uncopy(v3.apply_func(call, self_t, rw, [kk], {}, None, None))
+    pz = v3.mk_attr(st, "puzzle")
+    ep = v3.mk_attr(st, "empty_tile_position")
+    solved = v3.mk_attr(self_t, "_solved_puzzle")
+    okw = pz.kind == "loop" and uncopy(pz.args[0]) is solved and ep.kind == "loop"
+    # the walk body: an exchange of the blank with the drawn neighbour only
+    res.add("C17.R5", call.loc(), "sliding_tile_puzzle.generator.RandomWalkGenerator.__call__", "the start position is the random walk applied to the solved board, with nothing applied afterwards", okw,
+            txt(pz, 3, 140) if okw else f"{txt(pz, 3, 160)} -- the board is modified outside the legal random walk (parity / reachability is no longer guaranteed)")
